@@ -23,6 +23,11 @@ CHECKS = {
          "Every sequence of updates over values {0,1,3} for 2 chains x 1..2 params (and 3 chains x 1) up to depth 3-4 (quick, 2.3e6 histories) / 4-6 (thorough, 4.7e7) is applied to the real ChainTracker / MultiChainTracker; after EVERY update count, mean, unbiased variance, the EMA recurrence p_k = 0.99 p_{k-1} + 0.01 [moved], collect_rhat vs the classical formula on the trackers' own stats (1e-5) and vs MultiChainTracker::rhat and the batch truth are checked. Long MH-like histories (to 5000 updates, 16 chains, 8 params, f32/f64/i32/u8) are enumerated families.",
          "The EMA's initial value and the multi-chain combination of indicators are left open by the statement (only range/monotonicity demanded). f32 running moments: tolerance c*eps32*max|x|^2*(1+ln n).",
          "DESIGN.md §3 C13"),
+ "C15": ("E4", "exploration",
+         "enumeration of a finite parameter/point lattice through the real density, gradient and proposal functions against closed-form f64 definitions",
+         "The domain is continuous, so this is exploration over a finite lattice, not model checking: 2-4 means x 5 SPD covariances (cond to 1e4, rotated) x 7x7 points x batch sizes {1,2,3,64} x scalar types {f32,f64} x backends {NdArray<f32>,NdArray<f64>} for Gaussian2D / DiffableGaussian2D (normalised vs unnormalised constant, batched vs single row by row, autodiff gradient = Sigma^-1(mu-x)); Rosenbrock2D/ND values and analytic gradients; IsotropicGaussian logp = -d/2 ln(2 pi s^2) - |d|^2/2s^2, symmetry, integral of exp(logp) = 1 (d=1,2), sample() as a location-scale family of one seeded base stream, set_seed reproducibility.",
+         "That the base noise is standard normal is trusted (rand_distr). Tolerances are f32-level and scaled by the magnitude of the summed terms and the cancellation factor of the 2x2 determinant.",
+         "DESIGN.md §3 C15"),
  "C16": ("E4/E1", "model_checking",
          "exhaustive enumeration of the uniform variate (all 2^24 f32 outputs injected at the real sample() through a tap) for a set of weight vectors, boundary-variate probes for every weight vector of the alphabet",
          "For every weight vector over {0..7} of length <= 5 (quick) / 6 (thorough) and zero-block families up to length 64, in f32 and f64: normalisation, logp, and sample() at the boundary variates {0, one grid unit, every cumulative sum +-3 units, 1-ulp} with range, p>0, interval-membership and monotonicity oracles. For the sweep set (all short vectors, the rounding-critical vectors whose f32 cumulative sum stays at or below the largest variate, zero-block families) EVERY one of the 16,777,216 f32 variates is fed to the real sample(): index in range, never a zero-probability category, monotone, per-category count/2^24 = p_i within (len+1)*2^-24.",
